@@ -11,6 +11,8 @@ import ZV.Proofs.C18Main
 import ZV.Model.C18Time
 import ZV.Proofs.TimeInv
 import ZV.Proofs.C18Time
+import ZV.Model.C18Ext
+import ZV.Proofs.C18Ext
 /-!
   C18 — ASN.1 marshalling round-trips and is idempotent.
 
@@ -31,8 +33,11 @@ import ZV.Proofs.C18Time
   `unix_civil_roundtrip` (calendar ↔ Unix seconds, every year), `utctime_roundtrip`, `gentime_roundtrip`
   (`parseUTCTime ∘ appendUTCTime`, `parseGeneralizedTime ∘ appendGeneralizedTime`, both parsing modes),
   `time_choice`, `time_year_guard`, `time_body_roundtrip` (the UTCTime / GeneralizedTime choice of `makeField` /
-  `makeBody` and the decoder's arm agree).  time.Time is NOT a leaf of the deep embedding: time fields inside
-  structs / slices are covered by T3 only; a bare time.Time with parameters is tied by T2 (`c18 tm/tu`).
+  `makeBody` and the decoder's arm agree).  A bare time.Time with parameters is tied by T2 (`c18 tm/tu`).
+  Extended embedding (section "Extended embedding" at the end; `ZV.Model.C18Ext`): structs whose fields are time.Time or
+  any type of the old embedding — `xstruct_unmarshal_marshal` (round trip + rest + idempotence), `xstruct_marshal_idempotent`
+  (Marshal ∘ Unmarshal ∘ Marshal = Marshal), `xstruct_unmarshal_all`, `time_remarshal`; tied by T2 (`c18 tm` on struct
+  schemas, `c18 xu`).  time.Time nested deeper (struct in struct, slice elements) is covered by T3 only.
 
   Not covered by theorems (correspondence T2 / oracle T3 only): interface{}, RawContent (outside the model);
   Go `int` overflow of lengths ≥ 2^31.  See tools/props/C18.json.
@@ -395,5 +400,89 @@ theorem time_field_omitted (perm : Bool) (p : Params) (ho : p.optional = true) (
   simp [TimeField.makeTimeField, TimeField.omittedTime, TimeField.parseTimeField, TimeField.dfltTime, ho, hd]
 
 end TimeValues
+
+/-! ## Extended embedding: structs with `time.Time` fields (`ZV.Model.C18Ext`)
+
+  `XFields` = the field list of a Go struct whose fields are `time.Time` or ANY type of the old embedding (itself
+  arbitrarily nested); model `makeXStruct` / `parseXStruct`, tied to `MarshalWithParams` / `UnmarshalWithParams` on
+  run-time generated struct types by the T2 streams `c18 tm` (struct schemas) and `c18 xu`.
+  -- FULL: the same for time.Time at ANY depth (structs inside structs / `[]time.Time` / `[]struct{… time.Time …}`) and
+  -- for a left-out field followed by a present field with a distinguishable identifier (`skipsNext` of the old
+  -- embedding); proved here: one struct level, left-out fields only in trailing position.  Deeper nesting stays T3. -/
+section ExtendedEmbedding
+open ZV.Time ZV.C18.Ext
+
+/-- `time_field_roundtrip` is what `Proofs/C18Ext.lean` assumes of a time leaf -/
+theorem timeRT : Ext.TimeRT :=
+  fun p t enc rest hg hok hy0 hy1 h1 h2 hm hl => time_field_roundtrip false p t enc rest hg hok hy0 hy1 h1 h2 hm hl
+
+/-- **C18 for structs with time fields (round trip, all of `rest` left, idempotence)**: for every field list over
+    `time.Time` and the old type language, parameters and values in the decidable domain `XDom`
+    (lean/ZV/Proofs/C18Ext.lean: old fields in `InDomain`; time fields with year 0..9999, zone below 25 h, `fieldOK`;
+    left-out OPTIONAL fields only at the end of the struct), strict Unmarshal of Marshal's output followed by any
+    `rest` returns `rest` and a value `vs'` with `XEq fs vs vs'` (old fields `VEq`; times `readBack t` — to the second,
+    zone to the minute), and `vs'` marshals to the same bytes. -/
+theorem xstruct_unmarshal_marshal (fs : XFields) (p : Params) (vs : List XV) (enc rest : Bytes)
+    (hd : XDom fs p vs = true) (hm : makeXStruct fs p vs = .ok enc) (hl : enc.length < 2147483648) :
+    ∃ vs', parseXStruct false fs p (enc ++ rest) = .ok (vs', rest) ∧ XEq fs vs vs' ∧
+      makeXStruct fs p vs' = .ok enc :=
+  xstruct_rt timeRT fs p vs enc rest hd hm hl
+
+/-- a validity-like struct {NotBefore utc; NotAfter generalized,explicit,tag:0; Serial int; Rev optional,tag:1 time}
+    with the last field left out lies in the domain and marshals -/
+def exXFields : XFields :=
+  [({ timeType := 23 }, .time), ({ timeType := 24, explicit := true, tag := some 0 }, .time), ({}, .base .int64),
+   ({ optional := true, tag := some 1 }, .time)]
+def exXVals : List XV :=
+  [.time { unix := 946684800, off := 0 }, .time { unix := 2524608000, off := 3600, nsec := 5 }, .base (.int 7),
+   .time TimeField.zeroTime]
+
+example : XDom exXFields {} exXVals = true ∧ (∃ enc, makeXStruct exXFields {} exXVals = .ok enc ∧ enc.length = 43) := by
+  refine ⟨by decide +kernel, ?_⟩
+  cases h : makeXStruct exXFields {} exXVals with
+  | ok enc => exact ⟨enc, rfl, by have : (match makeXStruct exXFields {} exXVals with | .ok e => e.length | _ => 0) = 43 := by decide +kernel
+                                  rw [h] at this; exact this⟩
+  | err => exact absurd h (by decide +kernel)
+  | panic => exact absurd h (by decide +kernel)
+
+/-- **idempotence clause of C18 for the extended fragment** (`Marshal ∘ Unmarshal ∘ Marshal = Marshal`): whatever strict
+    Unmarshal returns for Marshal's output re-marshals to exactly the same bytes. -/
+theorem xstruct_marshal_idempotent (fs : XFields) (p : Params) (vs vs' : List XV) (enc r : Bytes)
+    (hd : XDom fs p vs = true) (hm : makeXStruct fs p vs = .ok enc) (hl : enc.length < 2147483648)
+    (hu : parseXStruct false fs p enc = .ok (vs', r)) : makeXStruct fs p vs' = .ok enc := by
+  obtain ⟨w, h1, _, h3⟩ := xstruct_unmarshal_marshal fs p vs enc [] hd hm hl
+  rw [List.append_nil, hu] at h1
+  simp only [Res.ok.injEq, Prod.mk.injEq] at h1
+  rw [h1.1]; exact h3
+
+/-- all bytes are consumed -/
+theorem xstruct_unmarshal_all (fs : XFields) (p : Params) (vs : List XV) (enc : Bytes)
+    (hd : XDom fs p vs = true) (hm : makeXStruct fs p vs = .ok enc) (hl : enc.length < 2147483648) :
+    ∃ vs', parseXStruct false fs p enc = .ok (vs', []) ∧ XEq fs vs vs' := by
+  obtain ⟨w, h1, h2, _⟩ := xstruct_unmarshal_marshal fs p vs enc [] hd hm hl
+  rw [List.append_nil] at h1
+  exact ⟨w, h1, h2⟩
+
+/-- **idempotence at a time leaf**: the time the decoder reads back (`readBack t`: nanoseconds dropped, zone truncated
+    to whole minutes) is written with the same tag and the same content as `t` — for EVERY zone offset and nanosecond
+    value, any `utc` / `generalized` parameter. -/
+theorem time_remarshal (p : Params) (t : GoTime) (hy0 : 0 ≤ t.year) (hy1 : t.year ≤ 9999)
+    (h1 : TimeField.omittedTime p t = false) (h2 : TimeField.omittedTime p (readBack t) = false) :
+    TimeField.makeTimeField p (readBack t) = TimeField.makeTimeField p t :=
+  makeTimeField_readBack p t hy0 hy1 h1 h2
+
+example : ∃ (p : Params) (t : GoTime), 0 ≤ t.year ∧ t.year ≤ 9999 ∧ TimeField.omittedTime p t = false ∧
+    TimeField.omittedTime p (readBack t) = false ∧ readBack t ≠ t :=
+  ⟨{ optional := true }, { unix := 946684800, off := 3630, nsec := 7 }, by decide +kernel⟩
+
+/-- the hypothesis `h2` of `time_remarshal` (clause `!omittedTime p (readBack t)` of `timeOK`) is needed: an OPTIONAL
+    time at the zero instant with nanoseconds is written, read back as `time.Time{}`, and then LEFT OUT on
+    re-marshalling — `Marshal ∘ Unmarshal ∘ Marshal ≠ Marshal` there (outside the documented domain: the harness
+    predicate timeInDomain excludes it too). -/
+example : TimeField.makeTimeField { optional := true } { unix := -62135596800, off := 0, nsec := 1 } ≠ .ok [] ∧
+    TimeField.makeTimeField { optional := true } (readBack { unix := -62135596800, off := 0, nsec := 1 }) = .ok [] := by
+  decide +kernel
+
+end ExtendedEmbedding
 
 end ZV.C18
